@@ -127,6 +127,7 @@ func runCheck(o *checkOpts) int {
 		cfg.Backend = g.Backend
 		cfg.Workers = o.workers
 		cfg.NoIfConvert = g.NoIfConv
+		cfg.LazyFork = g.LazyFork
 		if thorough {
 			cfg.Witnesses = 64
 			cfg.MaxPaths = 4_000_000
@@ -201,6 +202,12 @@ func runCheck(o *checkOpts) int {
 			all = append(all, res.Panics...)
 			reported := map[string]bool{}
 			for _, v := range all {
+				if gr.g.EngineOnly[res.Name] {
+					msg := fmt.Sprintf("MODEL-LINK harness=%s label=%s failed: an engine-only lemma that ties a harness-side model to the real code no longer holds (inputs %s); the dependent harnesses claim nothing until the model is updated", v.Harness, v.Label, tapeString(v.Tape))
+					lines = append(lines, "INCONCLUSIVE property="+o.id+" reason="+msg)
+					ev.inconclusive(msg)
+					continue
+				}
 				if !v.Confirmed && !o.noNative {
 					msg := fmt.Sprintf("ENCODER-MISMATCH harness=%s label=%s: solver counterexample did not reproduce natively (native outcome %q)", v.Harness, v.Label, v.Native)
 					lines = append(lines, msg)
@@ -469,6 +476,9 @@ func nativeRun(o *checkOpts, gr *groupRun) error {
 	var refs []ref
 	thorough := o.tier == "thorough"
 	for _, res := range gr.results {
+		if gr.g.EngineOnly[res.Name] {
+			continue
+		}
 		for _, a := range res.Asserts {
 			for _, v := range a.Violations {
 				tapes = append(tapes, nativeTape{v.Harness, tapeVals(v.Tape), thorough})
